@@ -38,6 +38,11 @@ CHECKS = {
             "Static decision that every reference id is the cache id of the value it names, that an issued id always gets its entry, "
             "children attach only to recorded ids, ids come from the size of a grow-only cache, cache hits stop descent before issue, "
             "an Optional id is tested before use, and no entry is deleted while its id can still be handed out (one known finding).", "4/C07"),
+    "C08": ("reader/writer agreement between protobuf descriptors, converter keyword tables and the internal model; type-domain agreement of the attribute store and convert_value; who-passes-metadata rule on stub calls",
+            "Static decision that every message construction names only schema fields, sets every field (or lists it as not produced), "
+            "feeds each from the like-named attribute of the one source object element-wise, and consumes every model property; that "
+            "every storable attribute type has a convert_value arm (subclass first, own keyword); that watch sources match the enum; "
+            "that every stub call carries GRPCService.metadata() which returns the provider's metadata. Does not decide byte-level encodability.", "4/C08"),
     "C09": ("who-may-call / thread-role reachability over the resolved call graph, exactly-once path-shape rules, escape analysis of flush, lock discipline",
             "Static rules deciding, for every schedule and fault placement, the structural clauses: conversion and "
             "sending are unreachable from the application thread, each hand-over is submitted exactly once on every "
